@@ -112,6 +112,12 @@ func (bq *Queue[Q]) Run() {
 			if b == bq.nilQ {
 				break
 			}
+			if b.GetIndex() > h+1 && bq.chain.Height() != h {
+				// The chain has been moved by some other source since the height
+				// was read and the slot is reused by an element for a later
+				// height already, it must be kept. Retry with the new height.
+				continue
+			}
 
 			err := bq.chain.AddItem(b)
 			if err != nil {
